@@ -613,3 +613,51 @@ Proof.
   intros fuel Hf k sch lims Hk Hl. apply (H fuel Hf k (truncated a k sch lims) Hk eq_refl).
   repeat split; cbn [truncated bs data limits err]; [rewrite firstn_length; lia|exact Hl].
 Qed.
+
+(* ---------- for EVERY stream whatsoever: the stream decoder's only possible panic is an undefined type ---------- *)
+Lemma sdec_prim_no_panic lim p r : no_panic (sdec_prim lim p r).
+Proof.
+  unfold sdec_prim. destruct (int_spec p) as [[w sg]|] eqn:E.
+  - destruct (er_read r w). exact I.
+  - destruct p; try discriminate E.
+    + destruct (er_read r 1). exact I.
+    + destruct (read_u32 r) as [n r1]. destruct (negb _); [exact I|]. destruct (er_read r1 (N.to_nat n)). exact I.
+    + destruct (er_read r 16). exact I.
+Qed.
+Lemma selems_no_panic d : (forall r, no_panic (d r)) -> forall k r, no_panic (sdec_elems d k r).
+Proof.
+  intros Hd. induction k as [|k IH]; intros r; [exact I|]. cbn [sdec_elems].
+  apply no_panic_bind; [apply Hd|]. intros [v r1] _. apply no_panic_bind; [apply IH|]. intros [vs r2] _. exact I.
+Qed.
+Lemma sentries_no_panic dk d : (forall r, no_panic (dk r)) -> (forall r, no_panic (d r)) -> forall k r, no_panic (sdec_entries dk d k r).
+Proof.
+  intros Hk Hd. induction k as [|k IH]; intros r; [exact I|]. cbn [sdec_entries].
+  apply no_panic_bind; [apply Hk|]. intros [kv r1] _. apply no_panic_bind; [apply Hd|]. intros [v r2] _.
+  apply no_panic_bind; [apply IH|]. intros [vs r3] _. exact I.
+Qed.
+Lemma sfields_no_panic (d : ty -> SD) : (forall t r, no_panic (d t r)) -> forall fs r, no_panic (sdec_fields d fs r).
+Proof.
+  intros Hd. induction fs as [|f fs IH]; intros r; [exact I|]. cbn [sdec_fields].
+  apply no_panic_bind; [apply Hd|]. intros [v r1] _. destruct (is_ref f && err r1); [exact I|].
+  apply no_panic_bind; [apply IH|]. intros [vs r2] _. exact I.
+Qed.
+Lemma smsg_no_panic (d : ty -> SD) fs : (forall t r, no_panic (d t r)) -> forall g r acc, no_panic (smsg_loop d fs g r acc).
+Proof.
+  intros Hd. induction g as [|g IH]; intros r acc; [exact I|]. cbn [smsg_loop].
+  destruct (read_byte0 r) as [i r1]. destruct (index_of i fs) as [[k f]|]; [|exact I].
+  apply no_panic_bind; [apply Hd|]. intros [v r2] _. destruct (is_ref f && err r2); [exact I|apply IH].
+Qed.
+Theorem stream_decoder_never_panics s lim : forall fuel t r, no_panic (sdec s lim fuel t r).
+Proof.
+  induction fuel as [|fuel IH]; intros t r; [exact I|]. destruct t; cbn [sdec].
+  - apply sdec_prim_no_panic.
+  - destruct (s n) as [[fs|fs deps|brs]|]; [| | |reflexivity].
+    + apply no_panic_bind; [apply sfields_no_panic; apply IH|]. intros [vs r1] _. exact I.
+    + destruct (read_u32 r) as [len r1]. apply no_panic_bind; [apply smsg_no_panic; apply IH|]. intros [l r2] _. exact I.
+    + destruct (read_u32 r) as [len r1]. destruct (read_byte0 _) as [i r2]. destruct (find _ brs) as [[j m]|]; [|exact I].
+      apply no_panic_bind; [apply IH|]. intros [v r3] _. destruct (err r3); exact I.
+  - destruct (read_u32 r) as [n r1]. destruct (negb _); [exact I|].
+    apply no_panic_bind; [apply selems_no_panic; apply IH|]. intros [vs r2] _. exact I.
+  - destruct (read_u32 r) as [n r1]. destruct (negb _); [exact I|].
+    apply no_panic_bind; [apply sentries_no_panic; [apply sdec_prim_no_panic|apply IH]|]. intros [vs r2] _. exact I.
+Qed.
